@@ -361,3 +361,18 @@ _add("C17", "Drivers graph_embed / bipartite_graph_embed with the LAPACK callees
             "permutation and rank-one families in the stand-in.")
 _add("C03", "With measured-parameter dependencies among the abstract operations: every source operation occurs exactly once, users of an "
             "outcome stay after their measurement and before the next one of that mode, merged operations keep the dependencies of their parts.")
+
+_add("C06", "Gaussian photon counting / threshold detection: the (mean, covariance) handed to thewalrus' sampler are the moments of the "
+            "measured modes in the listed order (labelled symbols, every ordered subset of 2-3 modes; shape-bounded).")
+_add("C16", "BaseBosonicState.marginal: exponent and normalisation of every component are those of the rotated quadrature "
+            "(the moments quad_expectation is proved against).")
+_add("C14", "Time-domain programs with TWELVE loop variables (two-digit names) round-trip through both IR object models with every "
+            "array bound to its own variable.")
+_add("C18", "The structure-only mode (compare_params=False) is under the same labelled-graph contract: parameters ignored, class, "
+            "inverse flag and modes still compared.")
+_add("C09", "Program._clear_regrefs leaves no register ever created (deleted ones included) with a measured value.")
+_add("C10", "par_evaluate on expressions mixing measured and free atoms, asymmetric in every pair: every atom gets its own value.")
+_add("C12", "The X-compiler stand-in is repeated under several values of the global hbar.")
+_add("C02", "Mesh stand-in: every (constructor mesh, decomposition-time mesh option) pair of Interferometer.")
+_add("C07", "Stand-in: every non-Gaussian bosonic preparation (cat states of fractional parity in both representations, Fock, GKP) "
+            "is a physical state (real Wigner function, unit trace, <beta|rho|beta> a probability, real photon number).")
